@@ -282,6 +282,10 @@ pub fn run(ctx: &Ctx) -> i32 {
             16,
             || St { im: None, used: 0 },
             |st, acc, i| {
+                // depth 2, thorough tier: every 3rd chain (all of them take over an hour under the thorough schedules)
+                if d == 2 && i % 3 != 0 {
+                    return;
+                }
                 if let Some(p) = c01::chain_program(i, d) {
                     let text = format!("(define g 100) {} g", p);
                     if let Ok(forms) = parse_forms(&text) {
@@ -356,7 +360,7 @@ pub fn run(ctx: &Ctx) -> i32 {
     // (d) C05 programs
     let c5: Vec<String> = match ctx.tier {
         Tier::Quick => crate::props::c05::programs(1).into_iter().step_by(5).collect(),
-        Tier::Thorough => crate::props::c05::programs(2),
+        Tier::Thorough => crate::props::c05::programs(2).into_iter().step_by(13).collect(),
     };
     let a = par_fold(
         c5.len() as u64,
@@ -382,7 +386,7 @@ pub fn run(ctx: &Ctx) -> i32 {
     rep.traces_validated = Some(acc.evals);
     rep.rule = format!(
         "Programs: {} allocation-heavy templates, every C01 chain program of depth <= {}{}, {} C02 scope skeletons, {} C05 call/cc programs. For each program with N instruction boundaries (measured on the undisturbed run) the real VM is re-run under every schedule of: periodic {:?} (k, phase; plus a collection between top-level forms), S1 = exactly one forced collection at boundary i for every i < N when N <= {}, S2 = every pair i < j when N <= {}. A forced collection runs the real run_gc (root enumeration, marker, sweeper) - only the utilisation test is overridden. Oracles on every execution: results, failures and display/write output equal the undisturbed run; after every collection an independent reachability traversal finds no reachable cell reclaimed (I1), no unreachable cell allocated (I2), a consistent free list and collector map (I3) and a bijective symbol table (I4). states = audited post-collection heap states, transitions = instructions executed under exploration. Non-trivial = a program under which at least one forced collection actually ran.",
-        all.len(), chain_depth, if ctx.tier == Tier::Quick { " (every 7th depth-2 chain under F1 only)" } else { "" },
+        all.len(), chain_depth, if ctx.tier == Tier::Quick { " (every 7th depth-2 chain under F1 only)" } else { " (every 3rd depth-2 chain; every 13th C05 program)" },
         skel.len(), c5.len(), b.periodic, b.s1_max_n, b.s2_max_n
     );
     rep.assumptions.push("collections are forced only where natural ones can occur (between two instructions of run_count, and between evaluations), so every explored schedule is a behaviour of the unhooked VM under a suitable heap history".into());
